@@ -82,7 +82,7 @@ theorem wiring_encode_of_aggOk {g : GraphVal} {o : Opts} {s : Skeleton} {order :
           generalize hss : (order.filter fun id => !isImportNode g id).foldl (specNode g agg.canonical o.define)
             { terms := importTerms g agg.canonical } = ss at inv2
           have hn2 : NodesOk g ss st2 := inv2.nodes
-          obtain ⟨hs3, hext3, hni3, hw3⟩ := encExports_spec g.exports inv2.sync hn2 h3
+          obtain ⟨hs3, hext3, hni3, hw3⟩ := encExports_spec g.exports wf.defNames inv2.sync hn2 h3
           have hn3 : NodesOk g ss st3 := hn2.ext hext3 hni3
           have hw4 := encNames_spec wf hs3 hn3 hst
           show core (G st).w = _
@@ -94,7 +94,8 @@ theorem wiring_encode_of_aggOk {g : GraphVal} {o : Opts} {s : Skeleton} {order :
     distinctness of the import names, which is proved: `aggOf_keysNodup`) -/
 structure AggHyp (g : GraphVal) (agg : Agg) : Prop where
   ifaceNamed : ∀ e ∈ fixedImports agg, e.2.kind = .instance → e.2.iface = none ∨ e.2.iface = some e.1 ∨
-    ∃ i, e.2.iface = some i ∧ privIn (fixedImports agg) i ∧ ∀ e' ∈ fixedImports agg, e'.1 ≠ e.1 → e'.2.iface ≠ some i
+    ∃ i, e.2.iface = some i ∧ (providesIface e.1 i = false ∨
+      (privIn (fixedImports agg) i ∧ ∀ e' ∈ fixedImports agg, e'.1 ≠ e.1 → e'.2.iface ≠ some i))
   implicitKind : ∀ n ∈ g.nodes, ∀ slot sat p, n.kind = .instantiation slot sat → g.pkg? slot = some p →
     ∀ r ∈ unsatisfied p sat, aggKind agg r.name = some r.ty.kind
   explicitKind : ∀ n ∈ g.nodes, ∀ nm, n.kind = .import nm → aggKind agg nm = some n.ty.kind
@@ -291,5 +292,31 @@ example :
     (wiring exSkel).exports = [(['e', '1'], .instance, .inst 1), (['e', '2'], .instance, .inst 1)] :=
   ⟨wiring_encode_partial exGraph_wf exGraph_toposort exGraph_agg exGraph_aggOk exGraph_encode,
    by decide, by decide, by decide, by decide⟩
+
+/-! ### the pinned behaviour that contradicts the property: a definition renamed by `export()`
+
+  `define_type("d", T); export(node, "e")`: the export map lists `d ↦ node` and `e ↦ node`
+  (`get_export` answers both), `Node.export = "e"`.  The encoder exports the type under `e`
+  only.  `WF.defNames` excludes this shape from `wiring_encode_partial`; without it the equation
+  is false: -/
+
+def exRenamed : GraphVal :=
+  { pkgs := [],
+    nodes := [{ id := 0, kind := .definition, ty := { kind := .type }, exportName := some ['e'] }],
+    exports := [(['d'], 0), (['e'], 0)] }
+
+def exRenamedSkel : Skeleton :=
+  match encode exRenamed {} with
+  | .ok s => s
+  | _ => []
+
+theorem exRenamed_encode : encode exRenamed {} = .ok exRenamedSkel := by rfl
+
+/-- known finding `enc-definition-renamed-by-export`: the designated export `d` is missing -/
+theorem wiring_encode_counterexample :
+    ¬ (core (wiring exRenamedSkel) = core (specWiringWith exRenamed (fun n => n) true [0])) ∧
+    (wiring exRenamedSkel).exports.map (·.1) = [['e']] ∧
+    (specWiringWith exRenamed (fun n => n) true [0]).exports.map (·.1) = [['e'], ['d']] := by
+  refine ⟨by decide, by decide, by decide⟩
 
 end Wac.Props.C02
